@@ -54,7 +54,9 @@ def main():
         ok = ok and rc == 1
         if not skip_suite:
             junit = os.path.join(tmp, "junit.xml")
-            sh("/venv/bin/python -m pytest -q -p no:cacheprovider --timeout=900 --continue-on-collection-errors --junitxml=%s" % junit, cwd=wt, timeout=3000)
+            rc, out = sh("/venv/bin/python -m pytest -q -p no:cacheprovider --timeout=900 --continue-on-collection-errors --junitxml=%s" % junit, cwd=wt, timeout=3000)
+            if not os.path.exists(junit):
+                print("pytest produced no junit file; output tail:\n" + out[-2000:])
             stable = set(json.load(open("/root/.vp/BASELINE.json"))["stable_pass"])
             res = {}
             for tc in ET.parse(junit).iter("testcase"):
